@@ -106,6 +106,10 @@ Lemma Nlxor_lt256 a b : (a < 256 -> b < 256 -> N.lxor a b < 256)%N.
 Proof. exact (Nlxor_lt_pow2 a b 8). Qed.
 Lemma Nlor_lt256 a b : (a < 256 -> b < 256 -> N.lor a b < 256)%N.
 Proof. exact (Nlor_lt_pow2 a b 8). Qed.
+Lemma Nlor_lt65536 a b : (a < 65536 -> b < 65536 -> N.lor a b < 65536)%N.
+Proof. exact (Nlor_lt_pow2 a b 16). Qed.
+Lemma Nlor_lt4294967296 a b : (a < 4294967296 -> b < 4294967296 -> N.lor a b < 4294967296)%N.
+Proof. exact (Nlor_lt_pow2 a b 32). Qed.
 Lemma Npow2_range k n : (k <= n -> 1 <= 2 ^ k <= 2 ^ n)%N.
 Proof. intros H. split; [assert (2 ^ k <> 0)%N by (apply N.pow_nonzero; lia); lia|apply N.pow_le_mono_r; lia]. Qed.
 Lemma Nshiftl1_range k n : (k <= n -> 1 <= N.shiftl 1 k <= 2 ^ n)%N.
@@ -176,7 +180,7 @@ Ltac pose_facts :=
       pose proof (Nlxor_lt256 a b ltac:(lia) ltac:(lia))
   | |- context[N.lor ?a ?b] =>
       lazymatch goal with H : (N.lor a b < _)%N |- _ => fail | _ => idtac end;
-      pose proof (Nlor_lt256 a b ltac:(lia) ltac:(lia))
+      first [ pose proof (Nlor_lt256 a b ltac:(lia) ltac:(lia)) | pose proof (Nlor_lt65536 a b ltac:(lia) ltac:(lia)) | pose proof (Nlor_lt4294967296 a b ltac:(lia) ltac:(lia)) ]
   | |- context[2 ^ ?k] =>
       tryif is_zconst k then fail else idtac;
       lazymatch goal with H : 1 <= 2 ^ k <= _ |- _ => fail | _ => idtac end;
